@@ -1075,7 +1075,7 @@ func (g *Generator) generatePublishMethod(scope *parser.Scope, op *parser.Operat
 	}
 	method += tabtab + fmt.Sprintf("op = '%s'\n", op.Name)
 	method += tabtab + fmt.Sprintf("prefix = %s\n", generatePrefixStringTemplate(scope))
-	method += tabtab + fmt.Sprintf("topic = '{}%s{}{}'.format(prefix, self._DELIMITER, op)\n", scope.Name)
+	method += tabtab + fmt.Sprintf("topic = '{}%s{}{}'.format(prefix, self._DELIMITER, op)\n", strings.Title(scope.Name))
 	method += tabtab + "buffer = TMemoryOutputBuffer(self._transport.get_publish_size_limit())\n"
 	method += tabtab + "oprot = self._protocol_factory.get_protocol(buffer)\n"
 	method += tabtab + "oprot.write_request_headers(ctx)\n"
